@@ -143,7 +143,11 @@ def ed_sign_case(kd, ph, ctx, msg, acc):
     obj = lib_input(cv, ph, msg)
     out = B.lib_outcome(signer.sign, obj)
     if out[0] in ("ValueError", "TypeError"):
-        acc.observe("eddsa sign refuses (%s): %s, %s" % (out[0], cv, vname(ph, ctx)))
+        if len(ctx) <= 255:
+            acc.violation("C04/eddsa/%s/sign-refuses-a-defined-signature" % cv,
+                          pre + ": sign() raised %s (%s) although RFC 8032 defines the signature" % (out[0], out[1]), case)
+        else:
+            acc.observe("eddsa sign refuses (%s): %s, %s" % (out[0], cv, vname(ph, ctx)))
         return None
     if out[0] != "accept":
         acc.violation("C04/eddsa/%s/sign-raises/%s@%s" % (cv, out[0], exc_site(out[1])), pre + ": sign raised %s: %s" % (out[0], out[1]), case)
